@@ -24,6 +24,11 @@
            `write(g is byte)`; a local may shadow a global by name (a scoping matter of the front
            end: the model's indices are resolved).  A callee sees and may change the globals: callf
            threads the pair (int globals, bool globals) and CRet returns it.
+           BYTE READS: the int operand `OByte v` reads a byte of the frame zero-extended (lbso):
+           `(x is byte) is int` for an int local x (YLow: x mod 256, the low byte of its slot) and
+           `(q is byte) is int` for a byte-sized local (YSlot; bool locals so far), anywhere an int
+           operand may stand, including the push contexts (declaration initialiser, call / write
+           argument: push_expr's ByteToInt case).
    Source semantics (Codegen/LowerStmtProofs.v 1): callf d f args evs res -- function f called
            with d bytes of stack below its frame pointer emits evs and returns (CRet v) or faults
            (CFault FDivZero | FStackOverflow).  STACK ACCOUNTING: a function faults with
@@ -178,6 +183,32 @@ Example C01_program_globals_vm_run_sat :
   end.
 Proof. exact program_globals_vm_run_ex. Qed.
 
+(* satisfiability with byte reads (C01 byte truncation / zero-extension): `(x is byte) is int` is x mod 256
+   (the low byte of the int slot, read with lbso), `(q is byte) is int` reads a byte-sized local
+   zero-extended; in a declaration (push_expr's ByteToInt case: clear a word, store the byte), in
+   arithmetic, under write(.. is byte)
+     empty @is_you(int a0) { int y = (a0 is byte) is int; bool q = y > 40; writeln(y + ((q is byte) is int));
+                             int z = (q is byte) is int; write(((a0 is byte) is int) is byte);
+                             writeln(z - ((y is byte) is int)); }
+   a0 = 300: "45\n", the byte 44, "-43\n";  a0 = -1: "256\n", the byte 255, "-254\n" (as the real
+   compiler's output does on the VM) *)
+Example C01_program_byte_reads_check_sat : prog_ok_b 2 0 0 bx_funs 1 = true.
+Proof. exact bx_ok. Qed.
+Example C01_program_byte_reads_sat :
+  (exists m', HidV.Sphinx.Halts.runs (Machine.act 2 (code_of bx_prog) (zmem 0)) (mk 0 (bx_mem 300)) (map EOut bx_out300 ++ [EFlag 0]) (tnt bx_lib m')) /\
+  (exists m', HidV.Sphinx.Halts.runs (Machine.act 2 (code_of bx_prog) (zmem 0)) (mk 0 (bx_mem (-1))) (map EOut bx_outm1 ++ [EFlag 0]) (tnt bx_lib m')).
+Proof. exact program_byte_reads_ex. Qed.
+Example C01_program_byte_reads_vm_run_sat :
+  match run_program 2 (bx_bytes 300) [] bx_prog [] mon_none 4000 with
+  | OAbsorbed evs _ _ => firstn 9 evs = map EOut bx_out300 ++ [EFlag 0]
+  | _ => False
+  end /\
+  match run_program 2 (bx_bytes (-1)) [] bx_prog [] mon_none 4000 with
+  | OAbsorbed evs _ _ => firstn 11 evs = map EOut bx_outm1 ++ [EFlag 0]
+  | _ => False
+  end.
+Proof. exact program_byte_reads_vm_run_ex. Qed.
+
 Print Assumptions C01_program_lowering_correct.
 Print Assumptions C01_program_never_halts.
 Print Assumptions C01_program_labels_defined_once.
@@ -195,3 +226,6 @@ Print Assumptions C01_program_globals_image_sat.
 Print Assumptions C01_program_globals_returns_sat.
 Print Assumptions C01_program_globals_faults_sat.
 Print Assumptions C01_program_globals_vm_run_sat.
+Print Assumptions C01_program_byte_reads_check_sat.
+Print Assumptions C01_program_byte_reads_sat.
+Print Assumptions C01_program_byte_reads_vm_run_sat.
